@@ -649,16 +649,16 @@ func (c *Ctx) ruleAckRouting(id string, typeNames []string) {
 		key := "arm *packet." + tn + " of " + c.fname(disp)
 		found := false
 		detail := "no ack.Queue.Ack call receives the *packet." + tn + " taken from the dispatched packet"
-		for _, cl := range c.callsToDeep(disp, 3, q.ack) {
-			if !isNamed(boxedType(cl.Arg(1)), pkgPacket, tn) {
+		for _, u := range c.ackUses(q) {
+			if !isNamed(boxedType(u.pkt), pkgPacket, tn) {
 				continue
 			}
-			if !reachesParam(cl.Arg(1), disp, pktIdx) {
+			if !reachesParam(u.pkt, disp, pktIdx) {
 				detail = "the packet given to Ack is not the dispatched packet"
 				continue
 			}
 			// the key prefix is derived from the sending session's own ID() (possibly with a direction suffix)
-			if !depReaches(cl.Arg(0), func(v ssa.Value) bool {
+			if !depReaches(u.prefix, func(v ssa.Value) bool {
 				pc, ok := v.(*ssa.Call)
 				return ok && core.CallOf(pc).Is(sid) && reachesParam(pc.Call.Args[0], disp, sessIdx)
 			}) {
@@ -672,12 +672,21 @@ func (c *Ctx) ruleAckRouting(id string, typeNames []string) {
 }
 
 // keyShape renders the in-flight table prefix handed to Insert/Ack with the session abstracted away, so that the
-// prefixes used at different sites can be compared: ID(S), ID(S)+"/in", …; module helpers are seen through.
-func (c *Ctx) keyShape(v ssa.Value, depth int) string {
+// prefixes used at different sites can be compared: ID(S), ID(S)+"/in", …; helpers of the calling package (functions
+// or methods that build the prefix) are seen through, parameters bound to the shapes of the arguments.
+func (c *Ctx) keyShape(v ssa.Value, depth int) string { return c.keyShapeEnv(v, depth, nil, nil) }
+
+func (c *Ctx) keyShapeEnv(v ssa.Value, depth int, env map[*ssa.Parameter]string, home *ssa.Package) string {
 	v = core.Strip(v)
-	if depth > 6 {
+	if depth > 8 {
 		return "?"
 	}
+	if home == nil {
+		if in, ok := v.(ssa.Instruction); ok && in.Parent() != nil {
+			home = in.Parent().Pkg
+		}
+	}
+	isSession := func(t types.Type) bool { return isNamed(t, "wasp/sessions", "Session") }
 	switch x := v.(type) {
 	case *ssa.Const:
 		if x.Value != nil {
@@ -686,45 +695,51 @@ func (c *Ctx) keyShape(v ssa.Value, depth int) string {
 		return "nil"
 	case *ssa.BinOp:
 		if x.Op == token.ADD {
-			return c.keyShape(x.X, depth+1) + "+" + c.keyShape(x.Y, depth+1)
+			l, r := c.keyShapeEnv(x.X, depth+1, env, home), c.keyShapeEnv(x.Y, depth+1, env, home)
+			// constant folding of adjacent literals keeps "a"+"b" and "ab" alike
+			return l + "+" + r
 		}
 	case *ssa.Parameter:
-		if isNamed(x.Type(), "wasp/sessions", "Session") {
+		if s, ok := env[x]; ok {
+			return s
+		}
+		if isSession(x.Type()) {
 			return "S"
 		}
 		if args := callerArgs(x); len(args) == 1 {
-			return c.keyShape(args[0], depth+1)
+			return c.keyShapeEnv(args[0], depth+1, nil, home)
 		}
 		return "param:" + x.Name()
 	case *ssa.Call:
 		cl := core.CallOf(x)
-		if cl.Obj != nil && cl.Static == nil || (cl.Static != nil && (cl.Static.Pkg == nil || !c.P.IsModPkg(cl.Static.Pkg.Pkg) || cl.Static.Signature.Recv() != nil)) {
-			s := ""
-			if cl.Obj != nil {
-				s = cl.Obj.Name()
-			}
-			s += "("
-			for i, a := range x.Call.Args {
-				if i > 0 {
-					s += ","
-				}
-				s += c.keyShape(a, depth+1)
-			}
-			return s + ")"
-		}
-		if cl.Static != nil {
-			// a module helper that builds the prefix: the shape of what it returns
-			rvs := returnValues(cl.Static)
+		g := cl.Static
+		if g != nil && g.Pkg != nil && home != nil && g.Pkg == home && len(g.Blocks) > 0 && !c.P.IsGenerated(g) {
+			// a helper of the calling package that builds the prefix: the shape of what it returns
+			rvs := returnValues(g)
 			if len(rvs) == 1 {
-				return c.keyShape(rvs[0], depth+1)
+				sub := map[*ssa.Parameter]string{}
+				for i, p := range g.Params {
+					if i < len(x.Call.Args) {
+						sub[p] = c.keyShapeEnv(x.Call.Args[i], depth+1, env, home)
+					}
+				}
+				return c.keyShapeEnv(rvs[0], depth+1, sub, home)
 			}
 		}
-	case *ssa.UnOp, *ssa.Extract, *ssa.Phi:
-		if isNamed(v.Type(), "wasp/sessions", "Session") {
-			return "S"
+		s := ""
+		if cl.Obj != nil {
+			s = cl.Obj.Name()
 		}
+		s += "("
+		for i, a := range x.Call.Args {
+			if i > 0 {
+				s += ","
+			}
+			s += c.keyShapeEnv(a, depth+1, env, home)
+		}
+		return s + ")"
 	}
-	if isNamed(v.Type(), "wasp/sessions", "Session") {
+	if isSession(v.Type()) {
 		return "S"
 	}
 	return "?" + short(core.Term(v), 40)
@@ -768,32 +783,78 @@ func (c *Ctx) ruleDirectionKeys(id string) {
 	}
 	ru.Check(bad == "", "prefixes of client-started vs broker-started registrations", c.whereI(inAt.Instr), "client-started "+shapes(in)+", broker-started "+shapes(out), bad)
 	// routing of acknowledgements
+	for _, u := range c.ackUses(q) {
+		t := boxedType(u.pkt)
+		var want map[string]bool
+		dir := ""
+		switch {
+		case isNamed(t, pkgPacket, "PubRel"):
+			want, dir = in, "client-started"
+		case isNamed(t, pkgPacket, "PubAck"), isNamed(t, pkgPacket, "PubRec"), isNamed(t, pkgPacket, "PubComp"):
+			want, dir = out, "broker-started"
+		default:
+			continue
+		}
+		f := u.at.Parent()
+		c.R.Fn(c.fname(f))
+		n, _ := derefT(t).(*types.Named)
+		name := "?"
+		if n != nil {
+			name = n.Obj().Name()
+		}
+		key := "prefix used to acknowledge with a " + name + " in " + c.fname(f)
+		ru.Check(want[u.shape], key, c.whereI(u.at), "routed with the "+dir+" prefix "+u.shape, fmt.Sprintf("a %s completes a %s exchange, registered under %s, but is looked up under %s: the exchange is never completed", name, dir, shapes(want), u.shape))
+	}
+}
+
+// ackUse is one use of ack.Queue.Ack seen from where the packet's concrete type is known: the call itself, or — when
+// the call sits in a helper that takes the packet as an interface-typed parameter (ackInflight(ctx, prefix, p, name)) —
+// each call site of that helper.
+type ackUse struct {
+	call   *core.Call      // the Ack call
+	at     ssa.Instruction // where the concrete packet is supplied
+	pkt    ssa.Value       // the packet value there
+	prefix ssa.Value       // the prefix value there (the Ack call's own argument, or the helper argument bound to it)
+	shape  string          // key shape of the prefix
+}
+
+func (c *Ctx) ackUses(q *queueAnchors) []ackUse {
+	var out []ackUse
 	sites := c.modFuncsCalling(q.ack)
 	for _, f := range sortedFuncs(sites) {
 		if f.Package() != nil && f.Package().Pkg.Path() == c.P.Rel("wasp/ack") {
 			continue
 		}
 		for _, cl := range sites[f] {
-			t := boxedType(cl.Arg(1))
-			var want map[string]bool
-			dir := ""
-			switch {
-			case isNamed(t, pkgPacket, "PubRel"):
-				want, dir = in, "client-started"
-			case isNamed(t, pkgPacket, "PubAck"), isNamed(t, pkgPacket, "PubRec"), isNamed(t, pkgPacket, "PubComp"):
-				want, dir = out, "broker-started"
-			default:
+			pv := core.Strip(cl.Arg(1))
+			if mi, ok := cl.Arg(1).(*ssa.MakeInterface); ok {
+				pv = mi
+			}
+			prm, isParam := core.Strip(cl.Arg(1)).(*ssa.Parameter)
+			if _, isIface := cl.Arg(1).Type().Underlying().(*types.Interface); !(isParam && isIface && prm.Parent() == f) {
+				out = append(out, ackUse{call: cl, at: cl.Instr, pkt: cl.Arg(1), prefix: cl.Arg(0), shape: c.keyShape(cl.Arg(0), 0)})
+				_ = pv
 				continue
 			}
-			c.R.Fn(c.fname(f))
-			n, _ := derefT(t).(*types.Named)
-			name := "?"
-			if n != nil {
-				name = n.Obj().Name()
+			pi := paramIdx(prm)
+			for _, site := range c.P.StaticCallers(f) {
+				args := site.Common().Args
+				if pi >= len(args) {
+					continue
+				}
+				env := map[*ssa.Parameter]string{}
+				for i, hp := range f.Params {
+					if i < len(args) {
+						env[hp] = c.keyShape(args[i], 0)
+					}
+				}
+				prefix := cl.Arg(0)
+				if pp, ok := core.Strip(prefix).(*ssa.Parameter); ok && pp.Parent() == f && paramIdx(pp) < len(args) {
+					prefix = args[paramIdx(pp)]
+				}
+				out = append(out, ackUse{call: cl, at: site, pkt: args[pi], prefix: prefix, shape: c.keyShapeEnv(cl.Arg(0), 0, env, f.Pkg)})
 			}
-			key := "prefix used to acknowledge with a " + name + " in " + c.fname(f)
-			sh := c.keyShape(cl.Arg(0), 0)
-			ru.Check(want[sh], key, c.whereI(cl.Instr), "routed with the "+dir+" prefix "+sh, fmt.Sprintf("a %s completes a %s exchange, registered under %s, but is looked up under %s: the exchange is never completed", name, dir, shapes(want), sh))
 		}
 	}
+	return out
 }
